@@ -1198,7 +1198,11 @@ pub fn contract(env: &Env, name: &str, is_test: bool, recv: &V, args: &[Option<V
                         let yes = p.is_empty() || pieces(s, p).len() > 1;
                         want_text(out, bool_text(yes), err_ok, sig)
                     }
-                    None => false_or_err(out, sig, "a non-string cannot be a substring"),
+                    // on a string receiver `pat` is a substring, i.e. a string: any other kind is a
+                    // mistyped argument and "mistyped arguments are reported as such" (seeded change
+                    // C17-3 answered `false` like the `in` operator does)
+                    None if *pat != V::Undef => want_err(out, sig, "on a string receiver `pat` must be a string; a mistyped argument is reported"),
+                    None => false_or_err(out, sig, "an undefined argument cannot be a substring"),
                 },
                 V::Arr(a) => {
                     if *pat == V::Undef {
